@@ -4,8 +4,11 @@ CONSTANTS
     MaxNum = 3
     MaxCid = 98
     GenMaxNum = 2
+    LivePatterns = {"distinct"}
+    LiveFull = FALSE
     RangeHist = "ends"
     MaxHist = 2
+    InstanceMemory = FALSE
     FindPrefersDirectChild = FALSE
     ExcuseDecoy = TRUE
 SPECIFICATION Spec
